@@ -274,6 +274,9 @@ func (l *WAL) Switch() (*WalFiles, error) {
 
 	walFiles := newWalFiles(l.maxRowTime, l.lock, l.logPath)
 	l.maxRowTime = math.MinInt64
+	// A new log generation starts at partition 0: the serial replay consumes the
+	// partitions round-robin from partition 0, so the writer must be realigned.
+	atomic.StoreUint64(&l.writeReq, 0)
 
 	for i := 0; i < l.partitionNum; i++ {
 		go func(lw *LogWriter) {
